@@ -289,8 +289,65 @@ def test_histories():
     check("mutation operators used", ops, {"set0", "setkey", "append", "pop", "clear"})
 
 
+# ---- 8. zero / identity values and exact Python types -------------------------------------------------------------------------------
+def test_zero_values():
+    import checks.c06 as C
+
+    vc = M.value_consistency
+    check("int 0 under FIXED(38,0)", vc(0, 0, 38, 0), set())
+    check("Decimal('0') under FIXED(38,0): equal to 0 but not an int", vc(D("0"), 0, 38, 0), {"scale"})
+    check("Decimal('0') == 0 (why == is useless here)", D("0") == 0 and hash(D("0")) == hash(0), True)
+    check("Decimal('0.00') under FIXED(10,2)", vc(D("0.00"), 0, 10, 2), set())
+    check("Decimal('0') under FIXED(10,2): scale lost", vc(D("0"), 0, 10, 2), {"scale"})
+    check("int 0 under FIXED(10,2)", vc(0, 0, 10, 2), {"scale"})
+    check("Decimal('0E-37') under FIXED(38,37)", vc(D("0E-37"), 0, 38, 37), set())
+    check("0.0 under REAL", vc(0.0, 1, None, None), set())
+    check("0.0 under FIXED", vc(0.0, 0, 38, 0), {"code"})
+    check("0 under REAL", vc(0, 1, None, None), {"code"})
+    check("False under BOOLEAN", vc(False, 13, None, None), set())
+    check("0 under BOOLEAN", vc(0, 13, None, None), {"code"})
+    check("False under FIXED", vc(False, 0, 38, 0), {"code"})
+    check("'' under TEXT", vc("", 2, None, None), set())
+    check("'' under VARIANT is not JSON", vc("", 5, None, None), {"value"})
+    check("b'' under BINARY", vc(b"", 11, None, None), set())
+    check("epoch date", vc(dt.date(1970, 1, 1), 3, None, None), set())
+    check("midnight", vc(dt.time(0, 0), 12, 0, 9), set())
+    check("epoch ntz", vc(dt.datetime(1970, 1, 1), 8, 0, 9), set())
+    check("'[]' under ARRAY", vc("[]", 10, None, None), set())
+    check("'{}' under OBJECT", vc("{}", 9, None, None), set())
+    check("'0' under VARIANT", vc("0", 5, None, None), set())
+
+    class MyInt(int):
+        pass
+
+    class MyStr(str):
+        pass
+
+    check("int subclass is not an int", (M.pytype(MyInt(0)), vc(MyInt(0), 0, 38, 0)), ("MyInt", {"pytype"}))
+    check("str subclass is not a str", M.pytype(MyStr("")), "MyStr")
+    check("rows: Decimal 0 vs int 0", C._rows_equal([(D("0"),)], [(0,)], False), False)
+    check("rows: False vs 0", C._rows_equal([(False,)], [(0,)], False), False)
+    check("rows: 0.0 vs 0", C._rows_equal([(0.0,)], [(0,)], False), False)
+    check("rows: 0 vs 0", C._rows_equal([(0,)], [(0,)], False), True)
+    # the fixture holds each type's zero: row 3 of ty, row 2 of z
+    fams = {t["family"] for t in M.TYPES} - {"json"}
+    check("a zero literal per family", set(C._LIT0), fams)
+    check("a zero document per json kind", set(C._JLIT0), {"any", "object", "array"})
+    row3 = [q for q in C.FIXTURE_TY if q.startswith("insert into ty select 3,")]
+    check("ty row 3 is the zero row", row3, ["insert into ty select 3, " + ", ".join(C._lit0(t) for t in M.TYPES)])
+    check("z has a zero row", any(q.startswith("insert into z select 2, 0, 0.00, 0.0, '', false") for q in C.FIXTURE_TY), True)
+    check("declared NUMBER(12,0)", M.declared_mismatch("NUMBER(12,0)", 0, 12, 0), set())
+    check("declared NUMBER(12,2) scale", M.declared_mismatch("NUMBER(12,2)", 0, 12, 0), {"scale"})
+    forms = {s["cls"] for s in C.statements("quick")}
+    for f in ("query:zero_literal", "query:zero_expression", "query:zero_table", "typed:sum_zero:int_synonym", "typed:sum_zero:number_p_0",
+              "typed:zero_row:number_p_0", "typed:zero_row:fixedS", "typed:count_null:text"):
+        check(f"quick has {f}", f in forms, True)
+    zero_counters = [s["sid"] for s in C.STATEMENTS if s["sid"] in ("dml_merge_insert_0", "dml_merge_update_0", "dml_update_0", "dml_delete_0", "dml_insert_select_0")]
+    check("status counters of 0", len(zero_counters), 5)
+
+
 def main():
-    for f in (test_codes, test_declared, test_values, test_names, test_fetch_model, test_alphabet, test_histories):
+    for f in (test_codes, test_declared, test_values, test_names, test_fetch_model, test_alphabet, test_histories, test_zero_values):
         f()
     if FAILS:
         print(f"FAILED {len(FAILS)} of {N[0]} checks")
